@@ -25,7 +25,9 @@ def run(ctx):
         cs = ctx.tlc_family(fam, constants={"Tier": '"quick"'}, timeout=3000)
         cs = [c for c in cs if "world" not in c["prog"] and "check" not in c]
         cs.sort(key=lambda c: c["id"])
-        cases += cs[::stride]
+        # families about what a back-end keeps per loop / per call are taken whole
+        must = ("/outerjump/", "/loopcall/", "/range2/nested", "/multicall/", "/tuple/")
+        cases += [c for i, c in enumerate(cs) if i % stride == 0 or any(m in c["id"] for m in must)]
     # label allocation: nesting/sequencing shapes, many functions (spec/FamC16.tla), builtins that cannot run are dropped as unsupported
     shapes = ctx.tlc_family("FamC16", constants={"Tier": '"quick"'})
     cases += [c for c in shapes if "/builtin/" not in c["id"]]
